@@ -1620,6 +1620,11 @@ func (this *Reader) Read(block []byte) (int, error) {
 }
 
 func (this *Reader) processBlock() (int64, error) {
+	// The previous batch has been fully consumed: restart at the first buffer
+	// (also on the early return and error paths below, so that a failed batch
+	// never leaves a stale read position behind)
+	this.consumed = 0
+
 	if atomic.LoadInt32(&this.blockID) == _CANCEL_TASKS_ID {
 		return 0, nil
 	}
@@ -1714,15 +1719,18 @@ func (this *Reader) processBlock() (int64, error) {
 
 			if r.decoded > this.blockSize {
 				errMsg := fmt.Sprintf("Block %d incorrectly decompressed", r.blockID)
+				// No task reported this error: invalidate the stream here so that
+				// later calls do not deliver data from beyond the failed block
+				atomic.StoreInt32(&this.blockID, _CANCEL_TASKS_ID)
 				return decoded, &IOError{msg: errMsg, code: kanzi.ERR_PROCESS_BLOCK}
 			}
 
-			decoded += int64(r.decoded)
-
 			if r.err != nil {
+				// Do not account for the failed block: its data is not delivered
 				return decoded, r.err
 			}
 
+			decoded += int64(r.decoded)
 			copy(this.buffers[n].Buf, r.data[0:r.decoded])
 			n++
 			hashType := kanzi.EVT_HASH_NONE
@@ -1747,7 +1755,6 @@ func (this *Reader) processBlock() (int64, error) {
 		}
 	}
 
-	this.consumed = 0
 	return decoded, nil
 }
 
